@@ -28,6 +28,10 @@ type c12Case struct {
 	Period  string  `json:"period"`
 	Sleep   string  `json:"sleep"`
 	Boxes   [][]int `json:"boxes"` // per mailbox, per slot: index into c12Ages
+	// Restart (file store): the second mailbox is filled first, then the first slot of the first
+	// mailbox, then the server restarts (the id counter starts again), then the rest: the first
+	// mailbox's ids are not in ascending order although its messages are in delivery order
+	Restart bool `json:"restart,omitempty"`
 }
 
 func c12Exec(c *fw.Ctx, cas c12Case) (nontrivial bool) {
@@ -43,9 +47,21 @@ func c12Exec(c *fw.Ctx, cas c12Case) (nontrivial bool) {
 			age    int
 		}
 		var all []msg
-		for bi, slots := range cas.Boxes {
+		order := make([]int, len(cas.Boxes))
+		for i := range order {
+			order[i] = i
+			if cas.Restart {
+				order[i] = len(cas.Boxes) - 1 - i
+			}
+		}
+		for _, bi := range order {
+			slots := cas.Boxes[bi]
 			mb := fmt.Sprintf("box%d", bi)
 			for si, a := range slots {
+				if cas.Restart && bi == 0 && si == 1 {
+					sh.ReopenInBubble()
+					st = sh.Store
+				}
 				var date time.Time
 				switch c12Ages[a] {
 				case "absent":
@@ -165,19 +181,24 @@ func c12Run(c *fw.Ctx) {
 						if c.Expired() {
 							return
 						}
-						cas := c12Case{Backend: be, Period: period, Sleep: sleep, Boxes: [][]int{b1, b2}}
-						if c.Thorough() && n%7 == 0 {
-							cas.Boxes = append(cas.Boxes, []int{1, 3})
-						}
-						if !c.Begin(func() any { return cas }) {
-							continue
-						}
-						var nt bool
-						c.Guard(be, cas, func() { nt = c12Exec(c, cas) })
-						if nt {
-							c.Nontrivial(1)
-							if c.WantSample() {
-								c.Sample(map[string]any{"case": cas, "ages": c12Show(cas.Boxes)})
+						for _, restart := range []bool{false, true} {
+							if restart && (be != "file" || period != "1h" || sleep != "0s") {
+								continue // the restart variant: file store, one period, no sleep
+							}
+							cas := c12Case{Backend: be, Period: period, Sleep: sleep, Boxes: [][]int{b1, b2}, Restart: restart}
+							if c.Thorough() && n%7 == 0 {
+								cas.Boxes = append(cas.Boxes, []int{1, 3})
+							}
+							if !c.Begin(func() any { return cas }) {
+								continue
+							}
+							var nt bool
+							c.Guard(be, cas, func() { nt = c12Exec(c, cas) })
+							if nt {
+								c.Nontrivial(1)
+								if c.WantSample() {
+									c.Sample(map[string]any{"case": cas, "ages": c12Show(cas.Boxes)})
+								}
 							}
 						}
 					}
